@@ -26,6 +26,7 @@ from __future__ import annotations
 
 import json
 from concurrent.futures import ThreadPoolExecutor
+import time
 from typing import Any
 
 from ptverif import distcheck as dc
@@ -208,16 +209,21 @@ def analyse(run: Run, progs: list[dict], results: list[dict], tier: str,
 
 def main(tier: str, only: list[dict] | None = None) -> int:
     run = Run(PROP, tier, "model_checking")
+    t0 = time.time()
     if only is None:
         progs, gstats = programs(tier)
     else:
         progs, gstats = only, []
+    t1 = time.time()
     opts = {"seed": seed(), "fine": True,
             "nrandom": 4 if tier == "quick" else 12,
             "dfs_runs": 150 if tier == "quick" else 2500,
             "dfs_keep": 1500 if tier == "quick" else 6000}
     results = dc.process_all(progs, opts)
+    t2 = time.time()
     a = analyse(run, progs, results, tier)
+    run.coverage["phase_wall_s"] = {"generate": round(t1 - t0, 1), "real_code": round(t2 - t1, 1),
+                                    "tlc": round(time.time() - t2, 1)}
     mc, val, lv = a["mc"], a["val"], a["lv"]
     nontriv = sum(1 for p in progs if nmsgs(p) >= 1)
     nsched = sum(len(r.get("runs", [])) for r in results)
